@@ -2,7 +2,7 @@
    the functions of libmcount / utils/fstack.c it restates and for what is not modelled). *)
 From Coq Require Import NArith List Bool.
 Import ListNotations.
-Require Import UV.C11.Model UV.C11.StepBase UV.C11.Proofs UV.C11.ProofsDepth UV.C11.ProofsReplay UV.C11.StreamMain.
+Require Import UV.C11.Model UV.C11.StepBase UV.C11.Proofs UV.C11.ProofsDepth UV.C11.ProofsReplay UV.C11.StreamMain UV.C11.StepVfork.
 Local Open Scope N_scope.
 
 (* Every legal program - any mix, order and depth of traced / untraced / PLT calls, tail calls, setjmp,
@@ -47,6 +47,45 @@ Theorem C11_replay_depth_all_streams : forall es l, gt_run gt0 es = Some l -> rp
 Proof. exact replay_depth_all_streams. Qed.
 Print Assumptions C11_replay_depth_all_streams.
 
+(* "...for every thread": setjmp_depth / setjmp_count are file-level statics of utils/fstack.c, shared by every task
+   of the trace, so the `latest setjmp` guessed at a longjmp may be ANOTHER task's (shallower or deeper).  For
+   every merged stream of any number of tasks whose own records are faithful, replay still shows every record at
+   its true depth: the EXIT record of the setjmp that was the target corrects the guess in both directions. *)
+Theorem C11_replay_depth_all_tasks : forall es l, gtm_run (fun _ => gt0) es = Some l -> rpm_run rpm0 es = l.
+Proof. exact replay_depth_all_tasks. Qed.
+Print Assumptions C11_replay_depth_all_tasks.
+
+(* non-vacuity: task 1 setjmp at depth 4 < task 2 setjmp at depth 2 < task 1 longjmp; a resynchronisation that only
+   ever shrinks the depth (`diff > 0`) shows the calls after the jump two levels too high *)
+Theorem C11_replay_cross_task_right :
+  gtm_run (fun _ => gt0) witness_cross_task = Some [0; 1; 2; 3; 4; 4; 0; 1; 2; 2; 1; 0; 4; 5; 6; 4; 4; 4; 3; 2; 1; 0] /\
+  rpm_run rpm0 witness_cross_task = [0; 1; 2; 3; 4; 4; 0; 1; 2; 2; 1; 0; 4; 5; 6; 4; 4; 4; 3; 2; 1; 0] /\
+  rpm_run_with rp_step_shrink_only rpm0 witness_cross_task
+    = [0; 1; 2; 3; 4; 4; 0; 1; 2; 2; 1; 0; 4; 5; 6; 2; 2; 2; 1; 0; 0; 0].
+Proof. exact replay_cross_task_right. Qed.
+Print Assumptions C11_replay_cross_task_right.
+
+(* vfork (prepare_vfork / setup_vfork / restore_vfork): for every legal program in which, at any points, a
+   vfork child runs on the parent's stack and shadow stack - calls, returns, tail calls, PLT calls, setjmp,
+   exceptions caught inside the child, until it execs or exits from any depth, never returning from the
+   function that called vfork - every transfer of control through the trampolines, in the child and in the
+   parent, including BOTH returns of vfork, reaches the real address after the right number of exit hooks. *)
+Theorem C11_vfork_in_step : forall ts, legal_progT ts = true ->
+  exists s obs, lrunT init ts = Some (s, obs) /\ ok_runT ts obs = true.
+Proof. exact vfork_in_step. Qed.
+Print Assumptions C11_vfork_in_step.
+
+(* ... and afterwards the parent's shadow stack is again exactly the list of its live traced functions. *)
+Theorem C11_vfork_parent_shadow : forall ts st' es, rrunT rinit ts = Some (st', es) ->
+  exists s obs, lrunT init ts = Some (s, obs) /\
+    (exc st' = false -> map proj (rs s) = shadow (frames st') /\ mem_top (m s) (frames st')).
+Proof. exact vfork_parent_shadow. Qed.
+Print Assumptions C11_vfork_parent_shadow.
+
+Theorem C11_vfork_sample_legal : legal_progT sample_vfork = true.
+Proof. exact sample_vfork_legal. Qed.
+Print Assumptions C11_vfork_sample_legal.
+
 (* End to end on the model ("the trace closes the abandoned calls or marks the jump so that replay shows
    all later calls at their true depth"): for every legal program the stream of records libmcount has
    written - lazily flushed ENTRY records, EXIT records of the frames dropped by exception unwinding, the
@@ -89,15 +128,19 @@ Theorem C11_resume_alias_now_in_step :
 Proof. exact resume_alias_now_in_step. Qed.
 Print Assumptions C11_resume_alias_now_in_step.
 
-(* Outside the guard of the first theorem, 1 - see known-findings.txt rehook-mixed-chain *)
-(* 1: a tail-call chain mixing a PLT entry and an mcount entry is re-hooked with the wrong trampoline. *)
-Theorem C11_rehook_mixed_chain_refuted :
-  (exists s obs, lrun init (firstn 5 witness_mixed_chain) = Some (s, obs)) /\
-  lrun init witness_mixed_chain = None.
-Proof. exact rehook_mixed_chain_refuted. Qed.
-Print Assumptions C11_rehook_mixed_chain_refuted.
+(* regression witness of /repo fix C01-9 (mcount_rstack_rehook oldest-first): a tail-call chain mixing a PLT
+   entry and an mcount entry, re-hooked after a catch, returns through both exit hooks - tail-call chains
+   of mixed kinds are legal moves of the theorems above *)
+Theorem C11_mixed_chain_now_in_step :
+  legal_prog witness_mixed_chain = true /\
+  exists s obs, lrun init witness_mixed_chain = Some (s, obs) /\
+    map (fun o => (o_target o, o_pops o)) obs = [(0,0); (0,0); (0,0); (0,0); (0,0); (12, 2); (11, 1)] /\
+    ok_run witness_mixed_chain obs = true.
+Proof. exact mixed_chain_now_in_step. Qed.
+Print Assumptions C11_mixed_chain_now_in_step.
 
-(* 2: with an -mfentry style frame address a destructor called from a cleanup pad is recorded as a child
+(* Outside the guard of the first theorem: *)
+(* with an -mfentry style frame address a destructor called from a cleanup pad is recorded as a child
    of the frame that was just unwound (two exit hooks, depth 3 instead of 2); control is unaffected. *)
 Theorem C11_fentry_cleanup_refuted :
   exists s obs, lrun init witness_fentry_cleanup = Some (s, obs) /\
